@@ -251,7 +251,10 @@ class Pipeline(Machine):
         deps, dep_exp = {}, {}
         if op["dep_depth"]:
             for dk in range(s.choice([1, 1, 2])):
-                cdesc = self._child(host, model, s.sub("child", dk), op, op["dep_depth"] if dk == 0 else 1, w)
+                # the second dependency may be as deep as the first: its grandchild then has the same *name* as the
+                # first one's ("#dep0" under "#dep0" and under "#dep1") but other content
+                cdesc = self._child(host, model, s.sub("child", dk), op,
+                                    op["dep_depth"] if dk == 0 else s.choice([1, op["dep_depth"]]), w)
                 form = op["dep_form"] if op["dep_form"] != "mixed" else s.choice(["inline", "path"])
                 deps[f"#dep{dk}"] = cdesc
                 dep_exp[f"#dep{dk}"] = {"desc": cdesc, "form": form}
